@@ -195,6 +195,22 @@ CHECKS = {
     note="Integer-valued data. base.gemv/gemm/syrk/symv/axpy with sparse operands, V assignment and size change are not in this check (C17/C19 "
          "drivers cover the products). Calibrated clauses are marked in the spec.",
     technique="TLA+ reference model over dense images; TLC trace validation (CCSValid + dense image at every step) of random programs run in crash-isolated children"),
+ "C20": dict(
+    category="model_checking",
+    text="BufferProtocol.tla: names bound to matrix objects, objects owning storage, views (exported buffers) that keep their source alive; actions New / "
+         "Alias / CopyOf / Export / WriteMat / WriteView / IOp / Reshape / Release / Drop. TLC checks ValidWhileHeld, NoLeakNoDangling, CopyIsFresh and "
+         "WriteFrame on the full state graph of five template families (dense i/d/z incl. 0xn and nx0, sparse d/z incl. explicit zeros and empty patterns) "
+         "and dumps the graphs; EVERY edge is replayed on real objects (path from the initial state, then the edge) and the complete abstract state is "
+         "compared: kind, typecode, size, values, compressed-column structure, object identity between names, and the contents seen through every live "
+         "view (memoryview and numpy.asarray) in the shape it was exported with - also after the last name of the source was deleted. A CopyOf edge executes "
+         "every concrete copy-like operation (+m, m[:, :], copy.copy, copy.deepcopy, pickle protocols 0-5, matrix(m), matrix(memoryview(m)), "
+         "matrix(numpy.asarray(m)), tofile/fromfile through a real file and io.BytesIO, spmatrix(V, I, J)) and checks independence by mutation. "
+         "MC_BufferImport.tla gives the matrix that matrix(obj[, tc]) must build from a buffer (formats i/l/d/Zd x requested typecode, 1-2 dimensions, "
+         "C/Fortran/stepped/negative strides, refusals) and is evaluated by TLC on generated numpy/array/memoryview sources.",
+    design_ref="DESIGN.md section 4 C20",
+    note="The export counter ob_exports is not observable from Python; it is bound through behaviour (storage valid and shared while a view lives). "
+         "Sparse writes go to stored entries only (pattern changes are C16).",
+    technique="TLA+ state machine model-checked by TLC, full edge cover of the dumped state graph replayed into the implementation; TLC-evaluated import table"),
 }
 
 NOT_YET = "check not built yet in this round (design in DESIGN.md section 4); not claimed"
